@@ -13,3 +13,7 @@ pub mod limbs;
 pub use limbs::*;
 pub mod stdspecs;
 pub use stdspecs::*;
+pub mod modarith;
+pub use modarith::*;
+pub mod primes;
+pub use primes::*;
